@@ -289,7 +289,7 @@ def check_exit(ctx, G, EV, outcome, strict, tpm_type, state, site, OBJ):
     look = G.look  # outstanding look-ahead byte (pulled, never sent), None if none
     # (1) yields are exactly the Emits in order (the root event of a new message at the end of the input may be dropped for streams)
     ys = [y for y in G.yields]
-    info_tail = [y for y in ys if y not in emits]
+    info_tail = [y for y in ys if not any(y is e for e in emits)]
     core = [y for y in ys if any(y is e for e in emits)]
     dropped_root = False
     if len(core) == len(emits) - 1 and emits and emits[-1] is EV["root"] and G.exhausted and outcome[0] == "return":
